@@ -5,6 +5,8 @@ CHECKS = {
          "note": REALS + " The defining integral is replaced by its ODE characterisation (dJ/da1 = integrand, J(a0,a0)=0)."},
  "C20": {"text": "Every function of eko.beta and eko.gamma is executed with nf symbolic (QCD) or nl symbolic and nf enumerated 0..6 (QED, mixed) and zeta values as opaque symbols; z3 decides that the resulting polynomial stays within 1e-11*scale of the literature polynomial (refs/rge_literature.py, transcribed independently with equation numbers) on the whole box, and that the dispatchers select the right coefficient.",
          "note": REALS + " The literature table is part of the trusted base."},
+ "C07": {"text": "The real exact non-singlet kernels (orders 1-4) and the dispatcher's exact branch are executed on symbolic gamma_k, beta_k, a0, a1 with forward-mode AD; z3 decides dE/da1 = gamma(a1)/beta(a1) E and E(a0,a0)=1 on every path (both signs of the NNLO discriminant, both N3LO root configurations, concrete nf through eko.beta), and for the fixed-alpha_em QED kernel additionally the shifted beta0, the alpha_em-contracted gammas and the pure-QED scale factor (AD in mu2_to); exact() is the ordered product of step kernels for 1-2 steps.",
+         "note": REALS + " N3LO with symbolic betas stubs roots() by symbolic roots + Vieta (argument-checked; roots() itself is decided in C13). gamma real symbols: polynomial identities extend to complex gamma."},
 }
 NOT_APPLICABLE = {
  "C03": "Schedule independence of multiprocessing.Pool over QUADPACK integrations: process scheduling and Fortran quadrature have no encodable semantics; nothing symbolic remains once they are stubbed.",
